@@ -14,7 +14,7 @@ WS = [" ", "  ", "\t", "\n", "\r\n", "\u3000", "\x1c", "\u2003 "]
 class C14(Prop):
     id = "C14"
     prop_file = "Props/C14"
-    level = "other"
+    level = "proof"
     binary_cases = True
     quick_n = 2500
     thorough_n = 60000
